@@ -25,6 +25,11 @@ nx = lambda a, b, l: l.startswith('exc:')
 
 def check(run):
     R = run
+    R.rule('C18.shared', 'objects created once per class / per function definition (class-level attributes, parameter '
+           'defaults) are only read: no buffer, validator, poll object, header list or option dict is shared between '
+           'connections', 2)
+    from .common import shared_state
+    shared_state(R, 'C18.shared')
     R.rule('C18.pending', 'the blocking wait is reached only after the pending() short-cut was tested and found empty; '
                           'the short-cut returns (True, pending()); no subclass overrides wait', 4)
     R.rule('C18.count', 'count from selector.wait -> _recv -> recv_into(self._buffer, count); the returned view covers '
@@ -47,6 +52,12 @@ def check(run):
     loop(R)
     zeroread(R)
     nolock(R)
+    from . import C14, C08
+    R.rule('C18.replies', 'the automatic replies of a cycle cannot abort it: a Pong that write() refuses is swallowed; a '
+                          'Close echo of any legal size is written in the cycle that read the Close', 3)
+    C14.swallow(R, RID='C18.replies')
+    with R.as_rule('C18.replies'):
+        C08.echobound(R)
 
 
 def level(R):
@@ -72,6 +83,25 @@ def level(R):
          and bool(cands), 'PlatformSelector may be %s: only KQueueSelector / PollSelector / SelectSelector have been confirmed to '
          'report readiness level-triggered' % sorted(cands), func='selectors.SelectorBase.wait', node=None,
          construct='PlatformSelector candidates %s' % sorted(cands))
+    # any kernel event means "go and read": error / hang-up conditions are reported together with input that is still
+    # queued, and it is recv() that tells data from EOF from reset - a selector that raises (or filters the event mask)
+    # on POLLERR / POLLHUP loses the final burst
+    n_wr = 0
+    for cq, c in sorted(R.prog.classes.items()):
+        if c.module.name != 'selectors':
+            continue
+        for mname in ('wait_readable', 'wait'):
+            fi = c.methods.get(mname)
+            if fi is None:
+                continue
+            n_wr += 1
+            rs = [x for x in own_nodes(fi.node) if isinstance(x, ast.Raise)]
+            masks = [x for x in own_nodes(fi.node) if isinstance(x, ast.BinOp) and isinstance(x.op, ast.BitAnd)]
+            R.ob('C18.level', '%s.%s reports every event as readable' % (c.name, mname), not rs and not masks,
+                 '%s.%s %s: a hang-up / error condition signalled together with unread input ends the loop before recv() '
+                 'drained it' % (c.name, mname, 'raises' if rs else 'filters the event mask'), func=fi,
+                 node=(rs or masks or [None])[0], construct='%s.%s raises/filters' % (c.name, mname))
+    need(n_wr >= 4, 'selectors: wait / wait_readable implementations not found')
     # registration flags of the poll selector: POLLIN must be among them
     pi = R.func('selectors.PollSelector.__init__')
     flags = {n.attr for n in own_nodes(pi.node) if isinstance(n, ast.Attribute) and n.attr.startswith('POLL')}
